@@ -69,6 +69,10 @@ def run(ctx):
                              "L1 invariants, laws, observer purity, failed calls change nothing", coverage=not q, heap="8g", timeout=2400, workers=fx.WORKERS)
     if r["violated"]:
         raise MachineryError("L1 spec FixedString.tla violates its own theorem %s (oracle bug), see %s" % (r["violated"], r["outfile"]))
+    if r.get("coverage"):
+        # TLC's -coverage counts per next-state disjunct; the per-action counts proper are those of the S->C
+        # enumerations below (notes s2c_calls_replayed_per_action, vacuous_actions)
+        ctx.notes["l1_mc_coverage_distinct_generated"] = r["coverage"]
 
     # ---- 2. L2 => L1 refinement (advisory)
     for cfg in [] if fx.SKIP_MC else (["FixedStringImpl_mc.cfg"] if q else ["FixedStringImpl_mc.cfg", "FixedStringImpl_mc_thorough.cfg"]):
